@@ -6,7 +6,7 @@ use crate::util::*;
 
 pub fn run(op: &str, f: &[&str]) -> Option<String> {
     match op {
-        "mf" | "cf" | "cfm" => {
+        "mf" | "cf" | "cfm" | "cfp" => {
             let src = unhex_str(f.last()?);
             Some(compile_str(&src, format("e", "10")).line())
         }
